@@ -133,6 +133,15 @@ def gen_case(rnd, tier, index):
             body += '&' + wbgen.split_addr(first)[1]
         spec['cells'].append({'a': f'{main}!{wbgen.rc_coord(40, 1)}', 'f': '=' + body,
                               'p': [first] if first else [], 'd': []})
+    if workload != 'cycle' and index % 50 == 13:
+        # text as long as a cell can hold (32767 characters), words of 97 characters separated by
+        # two blanks: wherever a writer breaks such a line, it breaks it at a run of blanks
+        unit = 'w' * 97 + '  '
+        long_text = (unit * 331)[:32767 - 8] + 'tail end'
+        consts_ = [c for c in spec['cells'] if 'v' in c and c['a'] not in spec.get('pinned', ())]
+        if consts_:
+            rnd.choice(consts_)['v'] = long_text
+            cfg['long_text'] = True
     long_chain = workload == 'acyclic' and index % 40 == 11
     if long_chain:
         # a deep model (a column of some hundred cells, each from the one above)
